@@ -28,6 +28,11 @@ def generate(rng, tier, seed):
     cases = []
     for k in range(n):
         cases.append(gen_coll_case(rng, f"c04_{seed}_{k}", probes=True, allow_invalidate=True))
+    # consumers bound through a reference (conditional selection over sets / dictionaries and over sibling list elements):
+    # the consumer must see the selected producer's value, flags and per-tick delta - the C13 monitors, counted here too
+    from .c13 import gen_coll_ref, gen_sibling_ref
+    for k in range(n // 4):
+        cases.append(gen_coll_ref(rng, f"c04_{seed}_ref{k}") if k % 3 else gen_sibling_ref(rng, f"c04_{seed}_sib{k}"))
     return cases
 
 
@@ -83,6 +88,9 @@ def check(case, tr):
     if tr.build_error:
         res.violations.append(Violation(f"valid program rejected at build: {tr.build_error}"))
         return res
+    if case.meta.get("kind") in ("coll", "sibling"):
+        from .c13 import check_coll, check_sibling
+        return check_coll(case, tr) if case.meta["kind"] == "coll" else check_sibling(case, tr)
     run = tr.runs[0]
     if run.error:
         res.violations.append(Violation(f"run failed: {run.error}"))
